@@ -83,6 +83,22 @@ impl JoinChannels {
     }
 }
 
+#[cfg(lora_rs_verif)]
+impl JoinChannels {
+    pub(crate) fn verif_snapshot(&self) -> crate::verif::VerifJoinChannels {
+        let mut available = [0u8; 9];
+        available.copy_from_slice(self.available_channels.data.as_ref());
+        crate::verif::VerifJoinChannels {
+            max_retries: self.max_retries,
+            num_retries: self.num_retries,
+            preferred_subband: self.preferred_subband.map(|s| s as usize as u8),
+            available,
+            previous: self.available_channels.previous,
+            previous_channel: self.previous_channel,
+        }
+    }
+}
+
 #[derive(Clone, Default)]
 #[cfg_attr(feature = "serde", derive(serde::Serialize, serde::Deserialize))]
 pub(crate) struct AvailableChannels {
